@@ -759,6 +759,7 @@ class World:
         self.check_errors = []
         self.reply_hooks = []   # callables(body) run at the instant a reply body is written
         self.dispatching = None
+        self.daemon_exited = None
         _AUDIT['hits'].clear()
         _AUDIT['on'] = True
 
@@ -805,6 +806,10 @@ class World:
         try:
             return self.loop.run_sync(coro_fn)
         except Stalled:
+            return None
+        except SystemExit as e:
+            # something run by the daemon's loop (a hook) called sys.exit(): a real circusd would be gone now
+            self.daemon_exited = ('SystemExit', e.code)
             return None
 
     def loop_iter(self):
